@@ -170,7 +170,8 @@ def cache_keys(ctx, rule='A8'):
     rets = returns_of(gk)
     sl = Slice(gk)
     node = cfg.node_of(rets[-1])
-    txts = [norm(rets[-1].value)] + [norm(v) for _, v, _, _ in sl.origins(rets[-1].value, node) if v is not None]
+    ORIG = origins_through_helpers(ctx.prog, gk, rets[-1].value, node)      # through extracted key-part helpers
+    txts = [norm(v) for v in ORIG]
     alltxt = ' '.join(txts)
     for f in fields:
         ok = f'self.{f}' in alltxt or (f == 'excluded' and 'get_excluded_indices()' in alltxt)
@@ -188,7 +189,7 @@ def cache_keys(ctx, rule='A8'):
            'excluded pairs enter the key in sorted order (the same set gives the same key)', '')
     # existence patterns are addressed by their position in the list (the existence map of a processor stores pattern
     # indices): their order is part of what is cached, so it is part of the key - no sorted()/set() around them
-    pat = [v for _, v, _, _ in sl.origins(rets[-1].value, node) if v is not None and 'patterns' in norm(v)]
+    pat = [v for v in ORIG if 'patterns' in norm(v)]
     unordered = [c for v in pat for c in ast.walk(v) if isinstance(c, ast.Call) and
                  norm(c.func).split('.')[-1] in ('sorted', 'set', 'frozenset') and 'patterns' in norm(c)]
     ctx.ob(rule, fkey(gk, rule, 'existence-order-preserved'), bool(pat) and not unordered, gk.where,
@@ -196,8 +197,7 @@ def cache_keys(ctx, rule='A8'):
            'number them differently and must not share a cache entry)',
            '; '.join(short(v, 70) for v in pat) if not unordered else f'order dropped by `{short(unordered[0], 70)}`')
     # which exclusion is meant is given by position: connector objects have no identity in their rendering
-    ex_defs = [v for _, v, _, _ in sl.origins(rets[-1].value, node) if v is not None and
-               ('excluded' in norm(v))]
+    ex_defs = [v for v in ORIG if 'excluded' in norm(v)]
     ok = bool(ex_defs) and any('get_excluded_indices()' in norm(v) for v in ex_defs) and \
         not any(isinstance(g, ast.comprehension) and norm(g.iter) == 'self.excluded'
                 for v in ex_defs for g in ast.walk(v))
@@ -210,9 +210,9 @@ def cache_keys(ctx, rule='A8'):
     attrs = sorted(nd.instance_attrs)
     used = set()
     for side in ('src', 'tgt'):
-        comps = [c for _, v, _, _ in sl.origins(rets[-1].value, node) if v is not None for c in ast.walk(v)
+        comps = [c for v in ORIG for c in ast.walk(v)
                  if isinstance(c, (ast.ListComp, ast.GeneratorExp)) and norm(c.generators[0].iter) == f'self.{side}']
-        maps = [c for _, v, _, _ in sl.origins(rets[-1].value, node) if v is not None for c in ast.walk(v)
+        maps = [c for v in ORIG for c in ast.walk(v)
                 if isinstance(c, ast.Call) and call_name(c) == 'map' and len(c.args) == 2 and
                 norm(c.args[1]) == f'self.{side}' and isinstance(c.args[0], ast.Name) and c.args[0].id in ('repr', 'str')]
         for c in maps:
